@@ -116,11 +116,24 @@ class EdgeComparator(Contract):
         self.sub = sub
         cx.elem_attrs["from_protocol"] = lambda I2, o, st, k: k(VElem(z3.Function("from_protocol", Val, Val)(o.t)), st)
 
+        MRO = z3.Function("mro", Val, SeqV)
+
         def builtin_hook(I2, name, args, kwargs, st, k):
             if name == "issubclass":
                 return k(VBool(sub(as_val(I2.cx, args[0], st), as_val(I2.cx, args[1], st))), st)
+            if name == "inspect.getmro":
+                # the linearised bases: every member is a superclass, but a class registered with an ABC
+                # (issubclass true) is NOT in the MRO -- specificity in C17 is the subclass relation, not MRO membership
+                c_ = as_val(I2.cx, args[0], st)
+                x = z3.Const("x!mro", Val)
+                I2.cx.axioms.append(z3.And(z3.ForAll([x], z3.Implies(z3.Contains(MRO(c_), z3.Unit(x)), sub(c_, x))),
+                                           z3.Length(MRO(c_)) >= 1, MRO(c_)[0] == c_))
+                r = VRef(I2.cx.new_oid())
+                return k(r, st.put(r.oid, HObj("tuple", MRO(c_))))
             return None
         cx.builtin_hook = builtin_hook
+        orig_ma = I.bi.module_attr
+        I.bi.module_attr = lambda mod, name: VFunc("builtin", name="inspect.getmro") if (mod, name) == ("inspect", "getmro") else orig_ma(mod, name)
         a, b, c = z3.Consts("a!po b!po c!po", Val)
         cx.axioms += [z3.ForAll([a], sub(a, a)), z3.ForAll([a, b], z3.Implies(z3.And(sub(a, b), sub(b, a)), a == b))]
 
